@@ -782,7 +782,9 @@ def _crosses_effect(between, use) -> bool:
         n = getattr(n, "_parent", None)
         if isinstance(n, (ast.For, ast.While, ast.If, ast.IfExp, ast.ListComp, ast.DictComp, ast.SetComp, ast.GeneratorExp, ast.Lambda, ast.Try)) and n is not last:
             return True
-    if isinstance(last, (ast.For, ast.While)) :
+    if isinstance(last, ast.For) and any(x is use for x in ast.walk(last.iter)):
+        pass            # the iterable is evaluated once, before the loop
+    elif isinstance(last, (ast.For, ast.While)):
         return True
     if isinstance(last, ast.If) and not any(x is use for x in ast.walk(last.test)):
         return True
